@@ -86,6 +86,9 @@ add(L, ["syntax::ast::expr_ext::Literal::token|unwrap<-and_then|0"], "Literal::t
 add(L, ["syntax::ast::expr_ext::Literal::kind|unreachable:internal error: entered unreachable code|0"], "Literal::kind(): the token of a LITERAL node is the one token bumped by atom::literal under p.at_ts(LITERAL_FIRST) = {BIT_STRING, BYTE, CHAR, FLOAT_NUMBER, INT_NUMBER, STRING, true, false}; the six AstToken casts cover the first six kinds (can_cast tables of generated/tokens.rs) and the final match the two keywords")
 add(L, ["syntax::validation::validate_timing_literal|unwrap<-identifier|0"], "TimingLiteral::identifier(): TIMING_LITERAL is completed only by atom::literal after identifier(p), which always completes an IDENTIFIER node (p.expect(IDENT) under `matches!(p.nth(1), IDENT)`)")
 add(L, ["syntax::ast::node_ext::text_of_first_token::first_token|unwrap<-and_then|0"], "text_of_first_token is reached in this cone only through ast accessors on nodes that contain at least one token (NAME / IDENTIFIER are completed after a bump or an error; see C03 inventory for the semantic cone)")
+add("C18.6-inventory", ["source_file::source_file::SourceFile::new|assert:assertion failed: include_error.is_some()|0"],
+    "fs::canonicalize fails only for a path that does not exist / is unreadable. SourceFile::new is called (a) by parse_one_included after fs::read_to_string succeeded on the same path (include_error None, canonicalize succeeds barring a race with file deletion), (b) by parse_one_included on a read error with include_error = Some, (c) by parse_source_file_with_search after read_source_file succeeded on the same path. So when canonicalize fails, include_error is Some.",
+    ["oq3_source_file::api::parse_source_file_with_search", "oq3_source_file::source_file::parse_included_files::parse_one_included"])
 out = [{"key": k, **v} for k, v in sorted(R.items())]
 json.dump(out, open(os.path.join(V, "spec", "reviewed_sites.json"), "w"), indent=1, ensure_ascii=False)
 print(len(out), "reviewed entries")
